@@ -50,13 +50,30 @@ for f in sorted(glob.glob('/verif/mutants/RESULTS-*.tsv')):
             out.append('| %s | %s | %s |' % tuple(esc(x) for x in parts))
 out.append('')
 # ---- seeded
-out.append('### 9.4 Independently seeded changes (generated from seeded/*/meta.json)\n')
-out.append('| seed | breaks | needs to manifest | checks run → result | history |')
-out.append('|---|---|---|---|---|')
+out.append('### 9.4 Independently seeded changes (generated from seeded/*/meta.json and seeded/RESULTS.tsv)\n')
+out.append('"now" = the check of the broken property re-run against the change at the committed state (tools/run_seeds.sh, quick tier): 1 = violation reported, 0 = missed. "first" = the results when the change was delivered, before any strengthening.\n')
+now = {}
+if os.path.exists('/verif/seeded/RESULTS.tsv'):
+    for l in open('/verif/seeded/RESULTS.tsv'):
+        c = l.rstrip('\n').split('\t')
+        if len(c) >= 3:
+            now[c[0]] = c[2]
+def hist(h):
+    if isinstance(h, str):
+        return h
+    parts = []
+    for e in h:
+        if isinstance(e, dict):
+            parts.append('; '.join('%s: %s' % (k, v) for k, v in e.items()))
+        else:
+            parts.append(str(e))
+    return ' // '.join(parts)
+out.append('| seed | breaks | needs to manifest | first | now | history |')
+out.append('|---|---|---|---|---|---|')
 for f in sorted(glob.glob('/verif/seeded/*/meta.json')):
     m = json.load(open(f))
     res = ', '.join('%s %s' % (k, v) for k, v in m.get('check_results', {}).items())
-    out.append('| %s | %s | %s | %s | %s |' % (m['seed'], m['breaks_property'], esc(m['needs_to_manifest']), esc(res), esc(m.get('history', ''))))
+    out.append('| %s | %s | %s | %s | %s | %s |' % (m['seed'], m['breaks_property'], esc(m['needs_to_manifest']), esc(res), now.get(m['seed'], '-'), esc(hist(m.get('history', '')))))
 out.append('')
 text = '\n'.join(out)
 d = open('/verif/DESIGN.md').read()
